@@ -69,7 +69,7 @@ def exact_stages(ctx, bins, builds, th):
     # lengths beyond 512 are sampled: seed-chosen n up to 10^4 (quick: 3 lengths up to 4096)
     import random
     rnd = random.Random(ctx.seed * 1009 + 7)
-    big = sorted(set(rnd.randint(513, 10000) for _ in range(16))) if th else sorted(set(rnd.randint(513, 4096) for _ in range(3)))
+    big = sorted(set(rnd.randint(513, 10000) for _ in range(32))) if th else sorted(set(rnd.randint(513, 4096) for _ in range(3)))
     for n in big:
         shards.append(("all kinds n=%d fam 0,20 (sampled length)" % n, ALLK, n, n, [0, 20]))
 
@@ -104,8 +104,8 @@ def run(ctx):
 
     # ---- R3: object histories ---------------------------------------------
     for bn, _ in builds:
-        thunks += histories(ctx, bins[bn], bn, 100 if th else 12, 50)
-    thunks += histories(ctx, bins["default"], "default", 30 if th else 3, 50, maxn=10000)
+        thunks += histories(ctx, bins[bn], bn, 250 if th else 12, 50)
+    thunks += histories(ctx, bins["default"], "default", 60 if th else 3, 50, maxn=10000)
 
     # ---- R1+R2: index helpers ----------------------------------------------
     def index():
@@ -125,7 +125,7 @@ def run(ctx):
         "exact vectors: the documented sums are taken from the FFTPACK definitions (1-based) the package translates; "
         "dense inputs rely on the inversion theorems, which TLC checks only where the dense sum is itself computable "
         "(n <= 12 with rational angles)",
-        "exact vectors are compared within 2048*n*2^-52*|x|_1 (rounding of the O(n log n)..O(n p) algorithms)",
+        "exact vectors are compared within 8192*n*2^-52*|x|_1 (rounding of the O(n log n)..O(n p) algorithms)",
     ]
     return ctx.finish(
         rule="R3: one case = one successful transform call of a recorded history (incl. its mirror on a brand-new "
